@@ -61,7 +61,7 @@ type expLeaf struct {
 	// Enum: the value is an enumerator; its spelling is the handler's choice, so the stored text only
 	// has to contain the enumerator's short name (case-insensitive).
 	Enum bool
-	Part string    // fields | msg | id | resource | scope | base
+	Part string // fields | msg | id | resource | scope | base
 	// FieldPath is set for leaves of the logical leaf map (used for the cross-protocol comparison).
 	FieldPath string
 }
